@@ -60,8 +60,9 @@ def inproc(case, base):
             pre = Profiler._get_script_ast_tree(script_file)
             out['pre'] = AC.conv_module(pre, it)
             d = ProfmodExtractor(pre, script_file, prof_mod).run()
-            out['dict'] = sorted([int(k), v] for k, v in d.items())
-            out['dict_order'] = [[int(k), v] for k, v in d.items()]
+            # {tree index: [names]} in insertion order (a bare str value is the pre-repair shape)
+            out['dict_order'] = [[int(k), ([v] if isinstance(v, str) else list(v))] for k, v in d.items()]
+            out['dict'] = sorted([k, n] for k, ns in out['dict_order'] for n in ns)
             tree = Profiler(script_file, prof_mod, bool(case['imports'])).profile()
             out['out'] = AC.conv_module(tree, it)
             out['err'] = None
